@@ -1,4 +1,4 @@
-#!/bin/sh
+#!/bin/bash
 # Every seeded change and regression against its property's quick check, N at a time, each on its own scratch copy of /repo (VERIF_REPO);
 # /repo itself is not touched.  Results: /tmp/par_results.tsv (id, property, exit code).  usage: tools/run_seeded_parallel.sh [N]
 N=${1:-4}
@@ -15,10 +15,11 @@ one() {
 list=$(for s in seeded/*-m*/; do n=$(basename $s); echo "$n ${n%%-*}"; done; for d in seeded/R-*/; do n=$(basename $d); python3 -c "
 import json;m=json.load(open('$d/meta.json'))
 if m['applies_to_head']: print('$n', m['property'])"; done)
-echo "$list" | while read id prop; do
+while read id prop; do
+  [ -n "$id" ] || continue
   while [ $(jobs -r | wc -l) -ge $N ]; do sleep 2; done
   one $id $prop &
-done
+done <<< "$list"
 wait
 sort /tmp/par_results.tsv -o /tmp/par_results.tsv
 cut -f3 /tmp/par_results.tsv | sort | uniq -c
